@@ -271,6 +271,7 @@ func TestVerif_C02_h2recv(t *testing.T) {
 	s := verifh.New(t, "C02", "h2recv",
 		"frame-script peer (x/net/http2 Framer + hpack) on loopback TCP against a real ClientConn: 0..2 (rarely 6) interim HEADERS, final HEADERS (status, fields, repeated names, Content-Length right / too small / too large / duplicated, Trailer announcement, optional CONTINUATION split, END_STREAM on HEADERS), DATA frames in generated sizes, with/without padding, empty, END_STREAM on DATA or on a trailer HEADERS; violations: DATA after END_STREAM, HEADERS after END_STREAM, trailers without END_STREAM, pseudo field in trailers, third HEADERS, DATA on HEAD, 1xx with END_STREAM, missing/non-numeric :status, RST_STREAM mid-body, GET/HEAD; in a third of the cases 1..3 EARLIER exchanges on the same connection (ordinary, header list above the advertised SETTINGS_MAX_HEADER_LIST_SIZE by < 2x, invalid field name / value, reset mid-body) whose outcome must not leak into the response under test; body 0..65537; caller read sizes {1,7,512,4096,65536,random}; compared: status, X-/Content-Type fields, concatenated bytes, final error class, trailers; non-trivial = >=2 DATA frames and non-empty body")
 	r := s.Rand()
+	matrix := map[string]int{}
 	ln, err := net.Listen("tcp", "127.0.0.1:0")
 	if err != nil {
 		t.Fatalf("listen: %v", err)
@@ -359,9 +360,18 @@ func TestVerif_C02_h2recv(t *testing.T) {
 			split = 1 + r.Intn(40)
 		}
 		headEnds := (len(body) == 0 || isHead) && len(trailers) == 0 && r.Intn(2) == 0
+		openNobody := false
 		if !isHead && (status == "204" || status == "304") && r.Intn(3) == 0 && pick > 8 {
-			// a 304 may carry the Content-Length of the representation (RFC 9110 8.6)
-			headEnds, trailers = true, nil
+			// a 304 may carry the Content-Length of the representation (RFC 9110 8.6);
+			// round 5: END_STREAM on the HEADERS frame, or - the stream left open by the
+			// HEADERS - on an empty DATA frame or on the trailer HEADERS (what Go's h2 server
+			// sends when the handler announced trailers)
+			if r.Intn(2) == 0 {
+				headEnds, trailers = true, nil
+			} else {
+				headEnds = false
+				openNobody = true
+			}
 			if !declared {
 				declared = true
 				clv = 1 + r.Intn(5000)
@@ -601,10 +611,13 @@ func TestVerif_C02_h2recv(t *testing.T) {
 				if !strings.HasPrefix(body, string(data)) {
 					propOK = false
 				}
-				if mut == "cl-small" && last == io.EOF && len(data) > clv {
+				// a Content-Length on a status that never has a body announces none (finding
+				// C02-3): the two length rules are about statuses that may have one
+				nobody := status == "204" || status == "304"
+				if mut == "cl-small" && last == io.EOF && len(data) > clv && !nobody {
 					propOK = false
 				}
-				if mut == "cl-large" && last == io.EOF && !isHead && !headEnds {
+				if mut == "cl-large" && last == io.EOF && !isHead && !headEnds && !nobody {
 					propOK = false // shorter than declared must not end cleanly
 				}
 			})
@@ -656,7 +669,34 @@ func TestVerif_C02_h2recv(t *testing.T) {
 		if isHead {
 			s.Count("HEAD")
 		}
+		// round 5: the matrix declared length {none, right, body longer (surplus), body shorter}
+		// x trailer section {no, yes}; every cell must be reached
+		if !isHead && !headEnds && (mut == "none" || mut == "cl-small" || mut == "cl-large") {
+			k := "undeclared"
+			switch {
+			case mut == "cl-small":
+				k = "surplus"
+			case mut == "cl-large":
+				k = "short"
+			case declared:
+				k = "declared"
+			}
+			k = "matrix:" + k + "/trailers=" + strconv.FormatBool(len(trailers) > 0)
+			s.Count(k)
+			matrix[k]++
+		}
 		class := ""
+		if openNobody && mut == "nobody-status-cl" {
+			s.Count("204/304+content-length+open-stream+no-data")
+		}
+		if !isHead && !headEnds && (status == "204" || status == "304") && declared && !strings.HasSuffix(mut, "dup") {
+			// finding C02-3: the length accounting of transportResponseBody.Read applied to a
+			// status that never has a body: END_STREAM before "Content-Length" bytes arrived
+			// is reported as io.ErrUnexpectedEOF (and DATA a misbehaving origin sends on such a
+			// status is measured against the Content-Length)
+			class = "h2-nobody-status-length-accounting"
+			s.Count("204/304+content-length+open-stream")
+		}
 		if !isHead && headEnds && (status == "204" || status == "304") && declared && clv > 0 && !strings.HasSuffix(mut, "dup") {
 			// finding C02-1 (see e2eh2): missingBody for a 204/304 that carries a Content-Length
 			class = "h2-nobody-status-content-length"
@@ -665,6 +705,16 @@ func TestVerif_C02_h2recv(t *testing.T) {
 		s.Case(line, impl, propOK, class, ndata >= 2 && len(body) > 0, human)
 	}
 	s.Finish()
+	if stalls < 4 {
+		for _, l := range []string{"undeclared", "declared", "surplus", "short"} {
+			for _, tr := range []string{"false", "true"} {
+				rare := (l == "surplus" || l == "short") && tr == "true" // a handful per quick run: required in the thorough tier only
+			if k := "matrix:" + l + "/trailers=" + tr; matrix[k] == 0 && (!rare || verifh.Thorough()) {
+					t.Errorf("lane h2recv never reached %q", k)
+				}
+			}
+		}
+	}
 }
 
 // c02PatByte: position-dependent test data, the byte at stream offset i (same formula as the
